@@ -697,6 +697,97 @@ class Codec:
                 return val
         raise CodecError("unknown enum symbol %r" % j)
 
+    def json_match(self, t, got, ref, path="$"):
+        """Type-directed comparison of a produced JSON value with the reference mapping.
+        Returns None if equal (numbers numerically, object key order free, non-string-keyed map
+        entries as a multiset), else a description of the first difference."""
+        t = self.res(t)
+        if isinstance(t, M):
+            k = self.res(t.key)
+            if not (isinstance(k, P) and k.name == "string"):
+                if not (isinstance(got, list) and isinstance(ref, list)):
+                    return "%s: expected array of pairs, got %s" % (path, self._kind_of(got))
+                if len(got) != len(ref):
+                    return "%s: %d vs %d map entries" % (path, len(got), len(ref))
+                keyf = lambda p: json.dumps(p[0], sort_keys=True) if isinstance(p, list) and len(p) == 2 else "~"
+                for i, (a, b) in enumerate(zip(sorted(got, key=keyf), sorted(ref, key=keyf))):
+                    if not (isinstance(a, list) and len(a) == 2):
+                        return "%s[%d]: not a [key, value] pair" % (path, i)
+                    d = self.json_match(t.key, a[0], b[0], path + "[%d].key" % i) or self.json_match(t.value, a[1], b[1], path + "[%d].value" % i)
+                    if d:
+                        return d
+                return None
+            if not isinstance(got, dict) or not isinstance(ref, dict):
+                return "%s: expected object, got %s" % (path, self._kind_of(got))
+            if set(got) != set(ref):
+                return "%s: keys %r vs %r" % (path, sorted(got)[:6], sorted(ref)[:6])
+            for kk in ref:
+                d = self.json_match(t.value, got[kk], ref[kk], path + "." + kk)
+                if d:
+                    return d
+            return None
+        if isinstance(t, N):
+            d0, _ = self.env.lookup(t)
+            if isinstance(d0, Rec):
+                if not isinstance(got, dict) or not isinstance(ref, dict):
+                    return "%s: expected object, got %s" % (path, self._kind_of(got))
+                if set(got) != set(ref):
+                    return "%s: fields %r vs %r" % (path, sorted(got), sorted(ref))
+                for fn, ft in record_fields(self.env, t):
+                    if fn in ref:
+                        d = self.json_match(ft, got[fn], ref[fn], path + "." + fn)
+                        if d:
+                            return d
+                return None
+        if isinstance(t, U) and ref is not None and got is not None:
+            if len(t.cases) > 1 and self.union_tagged(t):
+                if not (isinstance(got, dict) and len(got) == 1 and isinstance(ref, dict) and set(got) == set(ref)):
+                    return "%s: union case %r vs %r" % (path, got if not isinstance(got, dict) else list(got), list(ref))
+                (tag, inner), = ref.items()
+                idx = [i for i in range(len(t.cases)) if self.case_tag(t, i) == tag][0]
+                return self.json_match(t.cases[idx][1], got[tag], inner, path + "{" + tag + "}")
+            # untagged: find the case by the reference kind
+            kind = self._kind_of(ref)
+            for _, c in t.cases:
+                if kind in self.json_kinds(c):
+                    return self.json_match(c, got, ref, path)
+        if isinstance(t, V) and isinstance(got, list) and isinstance(ref, list):
+            if len(got) != len(ref):
+                return "%s: length %d vs %d" % (path, len(got), len(ref))
+            for i, (a, b) in enumerate(zip(got, ref)):
+                d = self.json_match(t.item, a, b, "%s[%d]" % (path, i))
+                if d:
+                    return d
+            return None
+        if isinstance(t, A):
+            if t.kind == "fixed":
+                if isinstance(got, list) and isinstance(ref, list) and len(got) == len(ref):
+                    for i, (a, b) in enumerate(zip(got, ref)):
+                        d = self.json_match(t.item, a, b, "%s[%d]" % (path, i))
+                        if d:
+                            return d
+                    return None
+            elif isinstance(got, dict) and isinstance(ref, dict) and set(got) == {"shape", "data"} and got["shape"] == ref["shape"] \
+                    and isinstance(got["data"], list) and len(got["data"]) == len(ref["data"]):
+                for i, (a, b) in enumerate(zip(got["data"], ref["data"])):
+                    d = self.json_match(t.item, a, b, "%s.data[%d]" % (path, i))
+                    if d:
+                        return d
+                return None
+        if isinstance(t, P) and t.name == "datetime" and isinstance(got, str) and isinstance(ref, str):
+            try:
+                return None if str_to_datetime(got) == str_to_datetime(ref) else "%s: %r vs %r" % (path, got, ref)
+            except ValueError:
+                return "%s: unparsable datetime %r" % (path, got)
+        if isinstance(t, P) and t.name == "time" and isinstance(got, str) and isinstance(ref, str):
+            try:
+                return None if str_to_time(got) == str_to_time(ref) else "%s: %r vs %r" % (path, got, ref)
+            except ValueError:
+                return "%s: unparsable time %r" % (path, got)
+        if isinstance(got, bool) != isinstance(ref, bool) or got != ref:
+            return "%s: %r vs %r" % (path, got if not isinstance(got, (list, dict)) else str(got)[:80], ref if not isinstance(ref, (list, dict)) else str(ref)[:80])
+        return None
+
     # NDJSON documents
     def ndjson_lines(self, proto: Proto, schema: str, values: list) -> list:
         lines = [json.dumps({"yardl": {"version": 1, "schema": json.loads(schema)}}, separators=(",", ":"))]
